@@ -3,6 +3,8 @@ package props
 import (
 	"context"
 	"fmt"
+	goatorepo "github.com/avos-io/goat/gen/goatorepo"
+	"io"
 	"sort"
 	"strings"
 	"time"
@@ -223,6 +225,9 @@ func c04(tier string) []*explore.Scenario {
 	// without stats handlers in the path of the header
 	out = append(out, fineGrained(c04HeaderRace("concurrent-sendheader", 2), c04HeaderRace("sendheader", 1))...)
 	out = append(out, withConfig([]string{"stats2", "stats+interceptors"}, fineGrained(c04HeaderRace("concurrent-sendheader", 2))...)...)
+	for _, kind := range []string{"Bidi", "CStream"} {
+		out = append(out, c04UndecodableRequest(kind, 0), c04UndecodableRequest(kind, 2))
+	}
 	out = append(out, handlerSeqs("C04", tier)...)
 	return out
 }
@@ -569,6 +574,91 @@ func c04ResetAfterReturn(kind string, herr bool, bound int) *explore.Scenario {
 				}
 			}
 			finishDirect(d, w, false) // (wire protocol)
+		},
+	}
+}
+
+// c04UndecodableRequest: a peer sends a request message that is not decodable; the handler's RecvMsg
+// fails, and in reaction the handler sets response headers and trailers and returns its own status.
+// What the handler set reaches the wire with that status: headers and trailers of a failing call
+// are as much the handler's as those of a successful one.
+func c04UndecodableRequest(kind string, afterGood int) *explore.Scenario {
+	fam := "C04/undecodable-request"
+	return &explore.Scenario{
+		Name: fmt.Sprintf("C04/undecodable-request/%s/after-good=%d", kind, afterGood), Family: fam, Prop: "C04", Bound: 1,
+		Run: func() {
+			w := env.NewWorld()
+			d := env.NewDirect(w, env.DirectOpts{Pipe: env.PipeOpts{Cap: 64}, NoClient: true})
+			vsched.GoNamed("peer-reader", func() {
+				for {
+					if _, err := d.Pipe.A.Read(context.Background()); err != nil {
+						return
+					}
+				}
+			})
+			vsched.Settle()
+			vsched.Explore(true)
+			r := w.Rec("s", kind)
+			var recvErr error
+			w.Handlers["s"] = func(r *env.Rec, ss grpc.ServerStream) error {
+				for {
+					m := new(env.Msg)
+					if recvErr = ss.RecvMsg(m); recvErr != nil {
+						break
+					}
+					r.HRecv = append(r.HRecv, string(m.Value))
+				}
+				ss.SetHeader(metadata.MD{"h-late": {"set after the failed receive"}})
+				ss.SetTrailer(metadata.MD{"t": {"end"}, "t-bin": {"\x00\xff"}})
+				return status.Error(codes.DataLoss, "bad input")
+			}
+			method := map[string]string{"Bidi": env.MBidi, "CStream": env.MCStream}[kind]
+			d.Pipe.A.Inject(env.ReqOpen(1, method, "s"))
+			for i := 0; i < afterGood; i++ {
+				d.Pipe.A.Inject(env.ReqBody(1, method, fmt.Sprintf("m%d", i)))
+			}
+			bad := env.ReqBody(1, method, "x")
+			bad.Body.Data = []byte{0xff, 0xff, 0xff}
+			d.Pipe.A.Inject(bad)
+			vsched.Quiesce()
+			if !r.HReturned || recvErr == nil || recvErr == io.EOF {
+				vsched.Fail(fam+"|harness", "the handler's receive of an undecodable message: returned=%v err=%v", r.HReturned, recvErr)
+				return
+			}
+			var finals []*env.Rpc
+			var hdr []*goatorepo.KeyValue
+			for _, e := range d.Tap.Events {
+				if e.Dir != "b2a" || e.Rpc.GetId() != 1 {
+					continue
+				}
+				hdr = append(hdr, e.Rpc.GetHeader().GetHeaders()...)
+				if e.Rpc.GetTrailer() != nil || e.Rpc.GetStatus() != nil {
+					finals = append(finals, e.Rpc)
+				}
+			}
+			if len(finals) != 1 {
+				vsched.Fail(fam+"|final-status", "the server sent %d final envelopes for the call: %v", len(finals), finals)
+				return
+			}
+			f := finals[0]
+			if f.GetStatus().GetCode() != int32(codes.DataLoss) || f.GetStatus().GetMessage() != "bad input" {
+				vsched.Fail(fam+"|final-status", "the handler returned DataLoss \"bad input\", the wire says %v", f.GetStatus())
+			}
+			have := func(kvs []*goatorepo.KeyValue, k string) bool {
+				for _, e := range kvs {
+					if e.GetKey() == k {
+						return true
+					}
+				}
+				return false
+			}
+			if !have(hdr, "h-late") {
+				vsched.Fail(fam+"|response-header", "the header the handler set after its receive failed is not on the wire: %v", hdr)
+			}
+			if !have(f.GetTrailer().GetMetadata(), "t") || !have(f.GetTrailer().GetMetadata(), "t-bin") {
+				vsched.Fail(fam+"|response-trailer", "the trailers the handler set after its receive failed are not on the wire: %v", f.GetTrailer().GetMetadata())
+			}
+			finishDirect(d, w, true)
 		},
 	}
 }
